@@ -2,16 +2,23 @@
 //!
 //! Compositions are statically typed in the library, but replay cases are data: `DynOp` is a
 //! dynamic carrier whose variants hold the REAL `Then`, `And`, `Map`, `RepeatWith`, `Identity`,
-//! `Constant`, `Mutate`, `Recombine`; it only forwards and converts values / error types.
+//! `Constant`, `Mutate`, `Recombine`, `Select`, `GenomeExtractor`, `GenomeScorer`; it only
+//! forwards and converts values / error types.
 
 use std::cell::{Cell, RefCell};
 
-use ec_core::operator::{
-    constant::Constant,
-    identity::Identity,
-    mutator::{Mutate, Mutator},
-    recombinator::{Recombinator, Recombine},
-    Composable, Operator,
+use ec_core::{
+    individual::{ec::EcIndividual, scorer::FnScorer},
+    operator::{
+        constant::Constant,
+        genome_extractor::GenomeExtractor,
+        genome_scorer::GenomeScorer,
+        identity::Identity,
+        mutator::{Mutate, Mutator},
+        recombinator::{Recombinator, Recombine},
+        selector::{Select, Selector},
+        Composable, Operator,
+    },
 };
 use rand::{Rng, RngCore};
 use serde_json::{json, Value};
@@ -24,6 +31,18 @@ pub enum Val {
     O { id: u64, inp: Box<Val>, at: u64 },
     P(Box<Val>, Box<Val>),
     L(Vec<Val>),
+    Ind(Box<Val>, i64),
+}
+
+/// the scorer of Compose.tla (`ScoreOf`): a deterministic, order-sensitive digest
+fn score_of(v: &Val) -> i64 {
+    match v {
+        Val::I(x) => x + 1,
+        Val::O { id, inp, at } => 1 + *id as i64 + *at as i64 + score_of(inp),
+        Val::P(a, b) => 2 + score_of(a) + 2 * score_of(b),
+        Val::L(xs) => 3 + xs.iter().enumerate().map(|(i, x)| (i as i64 + 1) * score_of(x)).sum::<i64>(),
+        Val::Ind(g, r) => 5 + score_of(g) + r,
+    }
 }
 
 fn val_from(v: &Value) -> Val {
@@ -31,6 +50,7 @@ fn val_from(v: &Value) -> Val {
         "i" => Val::I(i(&v["v"])),
         "o" => Val::O { id: u(&v["id"]), inp: Box::new(val_from(&v["inp"])), at: u(&v["at"]) },
         "p" => Val::P(Box::new(val_from(&v["a"])), Box::new(val_from(&v["b"]))),
+        "ind" => Val::Ind(Box::new(val_from(&v["g"])), i(&v["r"])),
         _ => Val::L(arr(&v["xs"]).iter().map(val_from).collect()),
     }
 }
@@ -40,6 +60,7 @@ fn val_to(v: &Val) -> Value {
         Val::O { id, inp, at } => json!({"k": "o", "id": id, "inp": val_to(inp), "at": at}),
         Val::P(a, b) => json!({"k": "p", "a": val_to(a), "b": val_to(b)}),
         Val::L(xs) => json!({"k": "l", "xs": xs.iter().map(val_to).collect::<Vec<_>>()}),
+        Val::Ind(g, r) => json!({"k": "ind", "g": val_to(g), "r": r}),
     }
 }
 
@@ -48,6 +69,7 @@ thread_local! {
     static CALLS: Cell<u64> = const { Cell::new(0) };
     static FAIL_AT: Cell<u64> = const { Cell::new(0) };
     static LOG: RefCell<Vec<Value>> = const { RefCell::new(Vec::new()) };
+    static SCORED: RefCell<Vec<Value>> = const { RefCell::new(Vec::new()) };
 }
 
 /// counts every word drawn from the shared stream
@@ -126,6 +148,45 @@ impl Recombinator<Val> for Probe {
     }
 }
 
+/// the component selector: draws one word, logs like `Probe`, maybe fails, otherwise returns
+/// the member at (stream position mod size) of the population it was given - by reference
+impl Selector<Vec<Val>> for Probe {
+    type Error = DynErr;
+    fn select<'pop, R: Rng + ?Sized>(&self, pop: &'pop Vec<Val>, rng: &mut R) -> Result<&'pop Val, DynErr> {
+        let at = WORDS.with(Cell::get);
+        let _word = rng.next_u64();
+        let call = CALLS.with(|c| {
+            c.set(c.get() + 1);
+            c.get()
+        });
+        LOG.with(|l| l.borrow_mut().push(json!({"id": self.0, "inp": val_to(&Val::L(pop.clone())), "at": at})));
+        if call == FAIL_AT.with(Cell::get) {
+            Err(DynErr::Leaf(self.0))
+        } else {
+            Ok(&pop[(at as usize) % pop.len()])
+        }
+    }
+}
+
+/// `GenomeScorer` needs a genome maker over `&population`; this adapter hands the population
+/// (as a list value) to an arbitrary composition
+struct OnPopulation(DynOp);
+impl Composable for OnPopulation {}
+impl<'pop> Operator<&'pop Vec<Val>> for OnPopulation {
+    type Output = Val;
+    type Error = DynErr;
+    fn apply<R: Rng + ?Sized>(&self, pop: &'pop Vec<Val>, rng: &mut R) -> Result<Val, DynErr> {
+        self.0.apply(Val::L(pop.clone()), rng)
+    }
+}
+
+fn as_individual(x: Val) -> EcIndividual<Val, i64> {
+    match x {
+        Val::Ind(g, r) => EcIndividual::new(*g, r),
+        other => panic!("individual expected, got {other:?}"),
+    }
+}
+
 /// The combinator types (`Then`, `And`, `Map`, `RepeatWith`) and their error types live in
 /// private modules of ec-core and cannot be named: compositions are built through the public
 /// `Composable` methods and kept behind a closure.
@@ -189,6 +250,46 @@ fn build(e: &Value, kind: &str) -> DynOp {
             let c = Constant::new(val_from(&e["v"]));
             DynOp(Box::new(move |x, mut r| c.apply(x, &mut r).map_err(|e| match e {})))
         }
+        "sel" => {
+            let p = Probe(u(&e["id"]));
+            if kind.ends_with("_ref") {
+                DynOp(Box::new(move |x, mut r| match x {
+                    Val::L(xs) => Select::new(&p).apply(&xs, &mut r).cloned(),
+                    other => panic!("select applied to {other:?}"),
+                }))
+            } else {
+                let sel = Select::new(p);
+                DynOp(Box::new(move |x, mut r| match x {
+                    Val::L(xs) => sel.apply(&xs, &mut r).cloned(),
+                    other => panic!("select applied to {other:?}"),
+                }))
+            }
+        }
+        "ext" => DynOp(Box::new(|x, mut r| {
+            let ind = as_individual(x);
+            GenomeExtractor.apply(&ind, &mut r).map_err(|e| match e {})
+        })),
+        "scorer" => {
+            let scorer = FnScorer(|g: &Val| {
+                SCORED.with(|l| l.borrow_mut().push(val_to(g)));
+                score_of(g)
+            });
+            let maker = OnPopulation(build(&e["a"], kind));
+            if kind.ends_with("_ref") {
+                // built through the public `wrap` as the examples do
+                let gs: GenomeScorer<_, _> = maker.wrap::<GenomeScorer<_, _>>(scorer);
+                DynOp(Box::new(move |x, mut r| match x {
+                    Val::L(xs) => gs.apply(&xs, &mut r).map(|ind| Val::Ind(Box::new(ind.genome), ind.test_results)),
+                    other => panic!("genome scorer applied to {other:?}"),
+                }))
+            } else {
+                let gs = GenomeScorer::new(maker, scorer);
+                DynOp(Box::new(move |x, mut r| match x {
+                    Val::L(xs) => gs.apply(&xs, &mut r).map(|ind| Val::Ind(Box::new(ind.genome), ind.test_results)),
+                    other => panic!("genome scorer applied to {other:?}"),
+                }))
+            }
+        }
         "then" => {
             let t = build(&e["a"], kind).then(build(&e["b"], kind));
             DynOp(Box::new(move |x, mut r| t.apply(x, &mut r).map_err(|e| step_of(&e))))
@@ -241,14 +342,16 @@ pub fn run_case(case: &Value, kind: &str, seed: u64) -> Value {
         CALLS.with(|c| c.set(0));
         FAIL_AT.with(|f| f.set(u(&case["failAt"])));
         LOG.with(|l| l.borrow_mut().clear());
+        SCORED.with(|l| l.borrow_mut().clear());
         let op = build(&case["e"], kind);
         let mut rng = CountingRng(run_rng(seed, 0xC14, 1));
         let res = op.apply(val_from(&case["x"]), &mut rng);
         let log: Vec<Value> = LOG.with(|l| l.borrow().clone());
         let words = WORDS.with(Cell::get);
+        let scored: Vec<Value> = SCORED.with(|l| l.borrow().clone());
         match res {
-            Ok(v) => json!({"ok": true, "v": val_to(&v), "path": [], "log": log, "words": words}),
-            Err(e) => json!({"ok": false, "v": {"k": "i", "v": 0}, "path": path_of(e), "log": log, "words": words}),
+            Ok(v) => json!({"ok": true, "v": val_to(&v), "path": [], "log": log, "words": words, "scored": scored}),
+            Err(e) => json!({"ok": false, "v": {"k": "i", "v": 0}, "path": path_of(e), "log": log, "words": words, "scored": scored}),
         }
     });
     r.unwrap_or_else(|m| json!({"panic": m}))
@@ -281,6 +384,20 @@ fn shape_atom() -> Value {
 
 /// random well-typed expression for an input of shape `sh`; returns (expr, output shape)
 fn gen(rng: &mut impl Rng, depth: u32, sh: &Value, next_id: &mut u64) -> (Value, Value) {
+    // shape-directed operators of the pipelines: select from a non-empty population, extract
+    // the genome of an individual, score what a composition makes from a population
+    match s(&sh["k"]) {
+        "l" if u(&sh["n"]) > 0 && rng.random_range(0..3) == 0 => {
+            *next_id += 1;
+            return (json!({"op": "sel", "id": *next_id}), sh["e"].clone());
+        }
+        "l" if depth > 0 && rng.random_range(0..3) == 0 => {
+            let (a, sa) = gen(rng, depth - 1, sh, next_id);
+            return (json!({"op": "scorer", "a": a}), json!({"k": "ind", "g": sa}));
+        }
+        "ind" if rng.random_range(0..2) == 0 => return (json!({"op": "ext"}), sh["g"].clone()),
+        _ => {}
+    }
     let leafish = depth == 0 || rng.random_range(0..4) == 0;
     if leafish {
         return match rng.random_range(0..6) {
@@ -331,6 +448,7 @@ fn value_of_shape(sh: &Value, rng: &mut impl Rng) -> Value {
     match s(&sh["k"]) {
         "p" => json!({"k": "p", "a": value_of_shape(&sh["a"], rng), "b": value_of_shape(&sh["b"], rng)}),
         "l" => json!({"k": "l", "xs": (0..u(&sh["n"])).map(|_| value_of_shape(&sh["e"], rng)).collect::<Vec<_>>()}),
+        "ind" => json!({"k": "ind", "g": value_of_shape(&sh["g"], rng), "r": rng.random_range(0..9)}),
         _ => json!({"k": "i", "v": rng.random_range(0..9)}),
     }
 }
@@ -343,9 +461,11 @@ pub fn trace(args: &[String]) -> i32 {
     let mut out = Out::create(arg_req(args, "--out"));
     for run in first..first + runs {
         let mut rng = run_rng(seed, 0xC14, run + 7);
-        let insh = match rng.random_range(0..4) {
+        let insh = match rng.random_range(0..7) {
             0 => json!({"k": "p", "a": {"k": "a"}, "b": {"k": "a"}}),
             1 => json!({"k": "l", "n": rng.random_range(0..4), "e": {"k": "a"}}),
+            2 | 3 => json!({"k": "l", "n": rng.random_range(1..5), "e": {"k": "ind", "g": {"k": "a"}}}),
+            4 => json!({"k": "ind", "g": {"k": "p", "a": {"k": "a"}, "b": {"k": "a"}}}),
             _ => shape_atom(),
         };
         let mut ids = 0u64;
